@@ -585,8 +585,14 @@ impl Connection {
                     .ok_or_else(|| Error::InvalidStateMessage("no active stream".to_string()))?;
 
                 stream.write_u32(total_len as u32).await?;
+                #[cfg(edp_rs_verif)]
+                crate::verif_hooks::yield_point("send:after_len").await;
                 stream.write_u8(PASS_THROUGH).await?;
+                #[cfg(edp_rs_verif)]
+                crate::verif_hooks::yield_point("send:after_marker").await;
                 stream.write_all(&control_encoded).await?;
+                #[cfg(edp_rs_verif)]
+                crate::verif_hooks::yield_point("send:after_control").await;
                 stream.write_all(&msg_encoded).await?;
                 stream.flush().await?;
             } else {
@@ -603,7 +609,11 @@ impl Connection {
                     .ok_or_else(|| Error::InvalidStateMessage("no active stream".to_string()))?;
 
                 stream.write_u32(total_len as u32).await?;
+                #[cfg(edp_rs_verif)]
+                crate::verif_hooks::yield_point("send:after_len").await;
                 stream.write_u8(PASS_THROUGH).await?;
+                #[cfg(edp_rs_verif)]
+                crate::verif_hooks::yield_point("send:after_marker").await;
                 stream.write_all(&control_encoded).await?;
                 stream.flush().await?;
             }
